@@ -25,6 +25,7 @@ func init() {
 		Rule: "strings = all sequences of length <= 3 (quick: <= 2) over the code units {a,b,A,U+00E9,U+20AC,D83D,DE00,space}, built in-script with String.fromCharCode and, " +
 			"where well-formed, also passed as Go strings (second internal representation); search/separator strings of length <= 2; position arguments " +
 			"{omitted,undefined,null,NaN,-Inf,-1,-0.5,0,0.5,1,2,3,4,+Inf,1e19,-1e19,\"1\",true}; receivers: primitive, String object, object with toString, array, 12, true, undefined, null; " +
+			"order family: receiver and arguments are objects whose toString/valueOf log, draw from a shared counter and behave in 5 ways (primitive, fallback, throw, object-then-throw, never primitive), every argument count, checked against the replay of the 15.5.4.x step order (log, result, surfacing exception); " +
 			"each (method, receiver route, representation, string, argument tuple) is one case; a case is non-trivial when the expected result is not the trivial one of its method " +
 			"(empty string / -1 / NaN / the unchanged receiver / TypeError).",
 		Families: []engine.Family{
